@@ -20,7 +20,7 @@ META = {
                    "length > 32 MiB, boundary included) and residual state equal those of the unfragmented run and of a 15-line "
                    "reference parser.",
     "technique": "CrossHair symbolic execution of MessageReceiver.receive; cut positions enumerated concretely, contents symbolic",
-    "bounds": "free streams: length <= 12 bytes (quick <= 10); structured: 2-3 frames with payload lengths 0..3; cuts: all 2- and 3-way",
+    "bounds": "free streams: length <= 14 bytes (quick <= 10); structured: 2-3 frames with payload lengths 0..3; cuts: all 2- and 3-way",
     "outside": "streams longer than the bound, 4+-way cuts (the receiver's state after a chunk depends only on the concatenation so far: "
                "checked as residual-state equality after every prefix)",
     "stubs": ["handle_message_data replaced by a recorder (payload parsing is C07/C20)", "peer object is a dummy"],
@@ -193,7 +193,7 @@ def boundary(twin: bool = False, real: bool = False):
 def obligations(tier: str, known: List[str]) -> List[Ob]:
     thorough = tier == "thorough"
     obs: List[Ob] = []
-    for L in range(0, (13 if thorough else 11)):
+    for L in range(0, (15 if thorough else 11)):
         obs.append(Ob("free[len=%d]" % L, C_1 + "; " + C_2, "free", {"L": L}, timeout=600 if thorough else 240))
     obs.append(twin_of(obs[9]))
     obs.append(Ob("limit-boundary", C_2, "boundary", {}, timeout=120))
